@@ -2,6 +2,7 @@ SPECIFICATION Spec
 CONSTANTS BlockLists = {"b1"}
           AllowLists = {"a1"}
           AsIsC = FALSE
+          CosmC = FALSE
           Configs <- ConfMixed
           ForcedBeh <- BehFull
           SchedBeh <- BehSched
